@@ -14,7 +14,7 @@ import Knut.Model.Infer
   over the decoding steps; `toLower`: `strings.Map(unicode.ToLower)`, an invalid byte becomes U+FFFD).  They are compared with the Go
   functions on all code points and on random byte strings by the streams `unicode` and `tokens` of C15.
 * `compare.Ordered` on strings (`cmp.Compare`) is `GoSem.cmpOrdered` on `List UInt8`, whose `<` is the lexicographic order of the
-  bytes — Go's string order (stream `gosembayes` of C11; `cmpOrdered_bytes` below ties it to the model's `bytesLt`).
+  bytes — Go's string order (stream `gosembayes` of C11; `FactsAgree/TransBayes.lean`: `cmpOrdered_bytes` ties it to the model's `bytesLt`).
 -/
 namespace Knut.GoSem.Syn
 
